@@ -260,7 +260,7 @@ KNOWN_SLOW = [("x = 9**9**9\n", "eval:pow-bomb"), ("x = 1 << (10**9)\n", "eval:s
 
 
 def run(ctx: Ctx) -> int:
-    ctx.prove(["Reduino.Props.C11"])
+    ctx.prove(["Reduino.Props.C11", "Reduino.GenOb.Eval"])
     common.fresh_import()
     P = importlib.import_module("Reduino.transpile.parser")
     rng = ctx.rng
